@@ -100,5 +100,5 @@ Proof.
     simpl in *. apply orb_false_iff in Hh. destruct Hh as [H1 _].
     specialize (IHe (S g0) 0 Ha H1). destruct (to_str e 0); [discriminate|contradiction].
   - (* Repeat *)
-    simpl in *. specialize (IHe g0 3 Ha Hh). destruct (to_str e 3); [discriminate|contradiction].
+    simpl in *. apply orb_false_iff in Hh. destruct Hh as [Hh _]. specialize (IHe g0 3 Ha Hh). destruct (to_str e 3); [discriminate|contradiction].
 Qed.
